@@ -1088,3 +1088,223 @@ Proof.
   change (tmpl_of c (with_expl i x)) with (tmpl_of c i).
   rewrite HE. apply HR.
 Qed.
+
+(* ------------------------------------------------------------------ json round trip for any non-empty member list *)
+Definition kv_valid (kv : text * text) : bool := forallb valid_scalar (fst kv) && forallb valid_scalar (snd kv).
+
+Lemma read_members_sp f s : json_read_members (S f) (32 :: s) = json_read_members (S f) s.
+Proof. reflexivity. Qed.
+
+Lemma json_members_cons2 kv kv2 r :
+  json_members (kv :: kv2 :: r) = json_member kv ++ [44; 32] ++ json_members (kv2 :: r).
+Proof. reflexivity. Qed.
+
+Lemma read_members_all kvs : forall f,
+  kvs <> [] -> forallb kv_valid kvs = true -> (length kvs <= f)%nat ->
+  json_read_members f (json_members kvs ++ [125]) = Some kvs.
+Proof.
+  induction kvs as [|[k v] r IH]; intros f Hne Hv Hf; [congruence|].
+  cbn [forallb] in Hv. apply andb_true_iff in Hv as [Hkv Hr].
+  unfold kv_valid in Hkv. cbn [fst snd] in Hkv. apply andb_true_iff in Hkv as [Hk Hvv].
+  destruct f as [|f]; [simpl in Hf; lia|].
+  destruct r as [|kv2 r'].
+  - change (json_members [(k, v)]) with (json_member (k, v)).
+    pose proof (read_member f k v [125] Hk Hvv) as X. etransitivity; [exact X|reflexivity].
+  - rewrite json_members_cons2. rewrite <- !app_assoc.
+    etransitivity; [apply (read_member f k v _ Hk Hvv)|]. cbn [app skip_ws N.eqb Pos.eqb orb].
+    destruct f as [|f']; [simpl in Hf; lia|].
+    rewrite read_members_sp. rewrite IH; [reflexivity|discriminate|exact Hr|simpl in Hf; simpl; lia].
+Qed.
+
+Lemma json_member_len kv : (1 <= length (json_member kv))%nat.
+Proof. unfold json_member, json_string. rewrite app_length. simpl. lia. Qed.
+
+Lemma json_members_len kvs : (length kvs <= length (json_members kvs))%nat.
+Proof.
+  induction kvs as [|kv r IH]; [simpl; lia|].
+  destruct r as [|kv2 r'].
+  - cbn [json_members length]. pose proof (json_member_len kv). lia.
+  - rewrite json_members_cons2, !app_length. pose proof (json_member_len kv). cbn [length] in *. lia.
+Qed.
+
+Lemma json_object_roundtrip kvs :
+  kvs <> [] -> forallb kv_valid kvs = true -> json_read_object (json_object kvs) = Some kvs.
+Proof.
+  intros Hne Hv. unfold json_object, json_read_object. cbn [app skip_ws N.eqb Pos.eqb orb].
+  apply read_members_all; [exact Hne|exact Hv|].
+  rewrite app_length. pose proof (json_members_len kvs). lia.
+Qed.
+
+(* ------------------------------------------------------------------ frame statements for the remaining supplied values *)
+Definition with_comment (i : input) (x : option text) : input :=
+  mkInput (i_cls i) (i_detail i) x (i_expl i) (i_location i) (i_headers i) (i_environ i) (i_tmpl i) (i_offers i).
+Definition with_location (i : input) (x : text) : input :=
+  mkInput (i_cls i) (i_detail i) (i_comment i) (i_expl i) x (i_headers i) (i_environ i) (i_tmpl i) (i_offers i).
+Definition with_headers (i : input) (h : list (text * text)) : input :=
+  mkInput (i_cls i) (i_detail i) (i_comment i) (i_expl i) (i_location i) h (i_environ i) (i_tmpl i) (i_offers i).
+Definition with_environ (i : input) (e : list (text * text)) : input :=
+  mkInput (i_cls i) (i_detail i) (i_comment i) (i_expl i) (i_location i) (i_headers i) e (i_tmpl i) (i_offers i).
+
+(* all values fixed *)
+Definition base_penv0 (b : branch) (c : cls) (i : input) : penv :=
+  [ (s_k_br, [Lit (b_br b)]);
+    (s_k_expl, [Lit (esc_apply (b_esc b) (expl_of c i))]);
+    (s_k_detail, [Lit (esc_apply (b_esc b) (or_empty (i_detail i)))]);
+    (s_k_comment, [Lit (esc_apply (b_esc b) (or_empty (i_comment i)))]);
+    (s_k_html_comment, [Lit (html_comment_of b i)]) ].
+
+Lemma base_args_inst0 b c i v : base_args b c i = inst v (base_penv0 b c i).
+Proof. unfold base_args, base_penv0, inst. cbn [map fst snd]. rewrite !fill_lit. reflexivity. Qed.
+
+Lemma aset_inst_hole k v E : aset k v (inst v E) = inst v (paset k [Hole] E).
+Proof. rewrite <- aset_inst. rewrite fill_hole. reflexivity. Qed.
+
+(* generic step: page_text from an args map that is a frame instance *)
+Lemma page_text_frame b c i0 (upd : text -> input) (g : text -> text) (E : penv) :
+  (forall x, tmpl_of c (upd x) = tmpl_of c i0) ->
+  (forall x, is_custom c (upd x) = is_custom c i0) ->
+  (forall x, build_args spec_policy b c (upd x) (is_custom c i0) = inst (g x) E) ->
+  exists R : res frame, forall x,
+    page_text spec_policy b c (upd x) = rmap (fun q => fill q (plug b (g x))) R.
+Proof.
+  intros Ht Hc HE.
+  destruct (page_frame_generic b c (tmpl_of c i0) E) as [R HR]. exists R. intros x.
+  rewrite page_text_unfold, Ht, Hc, HE. apply HR.
+Qed.
+
+(* ---- comment (non-empty): it occurs as ${comment} and inside the html_comment wrapper *)
+Definition base_penv_c (b : branch) (c : cls) (i : input) : penv :=
+  [ (s_k_br, [Lit (b_br b)]);
+    (s_k_expl, [Lit (esc_apply (b_esc b) (expl_of c i))]);
+    (s_k_detail, [Lit (esc_apply (b_esc b) (or_empty (i_detail i)))]);
+    (s_k_comment, [Hole]);
+    (s_k_html_comment, [Lit (b_cpre b); Hole; Lit (b_csuf b)]) ].
+
+Lemma base_args_inst_c b c i x : x <> [] -> b_comment_escaped b = true ->
+  base_args b c (with_comment i (Some x)) = inst (esc_apply (b_esc b) x) (base_penv_c b c i).
+Proof.
+  intros Hx Hb. unfold base_args, base_penv_c, inst. cbn [map fst snd].
+  rewrite !fill_lit, fill_hole.
+  unfold html_comment_of. cbn [with_comment i_comment or_empty]. rewrite Hb.
+  destruct x as [|x0 xr]; [congruence|]. cbn [is_nil maybe_esc].
+  unfold fill. cbn [flat_map]. rewrite app_nil_r. reflexivity.
+Qed.
+
+Lemma frame_comment b c i : b_comment_escaped b = true ->
+  exists R : res frame, forall x, x <> [] ->
+    page_text spec_policy b c (with_comment i (Some x)) =
+    rmap (fun q => fill q (plug b (esc_apply (b_esc b) x))) R.
+Proof.
+  intros Hb.
+  set (E := if is_custom c i
+            then fold_left (phdr_step (b_esc b)) (headers_of c i)
+                   (fold_left (penv_step (b_esc b)) (i_environ i) (base_penv_c b c i))
+            else base_penv_c b c i).
+  destruct (page_frame_generic b c (tmpl_of c i) E) as [R HR]. exists R. intros x Hx.
+  rewrite page_text_unfold.
+  change (tmpl_of c (with_comment i (Some x))) with (tmpl_of c i).
+  change (is_custom c (with_comment i (Some x))) with (is_custom c i).
+  rewrite build_args_spec, (base_args_inst_c b c i x Hx Hb).
+  change (headers_of c (with_comment i (Some x))) with (headers_of c i).
+  change (i_environ (with_comment i (Some x))) with (i_environ i).
+  unfold E in HR. destruct (is_custom c i).
+  - rewrite fold_env_inst, fold_hdr_inst. apply HR.
+  - apply HR.
+Qed.
+
+(* ---- one header value (any position; other headers, the Location of redirects included, fixed) *)
+Lemma fold_hdr_hole f x l1 k l2 E :
+  fold_left (hdr_step f) (l1 ++ (k, x) :: l2) (inst (esc_apply f x) E) =
+  inst (esc_apply f x)
+    (fold_left (phdr_step f) l2 (paset (lower k) [Hole] (fold_left (phdr_step f) l1 E))).
+Proof.
+  rewrite fold_left_app. cbn [fold_left]. rewrite fold_hdr_inst.
+  unfold hdr_step at 2. cbn [fst snd]. rewrite aset_inst_hole. apply fold_hdr_inst.
+Qed.
+
+Lemma frame_header b c i l1 k l2 :
+  exists R : res frame, forall x,
+    page_text spec_policy b c (with_headers i (l1 ++ (k, x) :: l2)) =
+    rmap (fun q => fill q (plug b (esc_apply (b_esc b) x))) R.
+Proof.
+  set (pre := if c_move c then [([76; 111; 99; 97; 116; 105; 111; 110], i_location i)] else []).
+  set (E := if is_custom c i
+            then fold_left (phdr_step (b_esc b)) l2
+                   (paset (lower k) [Hole]
+                      (fold_left (phdr_step (b_esc b)) (pre ++ l1)
+                         (fold_left (penv_step (b_esc b)) (i_environ i) (base_penv0 b c i))))
+            else base_penv0 b c i).
+  apply (page_text_frame b c i (fun x => with_headers i (l1 ++ (k, x) :: l2)) (fun x => esc_apply (b_esc b) x) E);
+    try (intros; reflexivity).
+  intros x. rewrite build_args_spec. unfold E. destruct (is_custom c i).
+  - change (i_environ (with_headers i (l1 ++ (k, x) :: l2))) with (i_environ i).
+    replace (headers_of c (with_headers i (l1 ++ (k, x) :: l2))) with ((pre ++ l1) ++ (k, x) :: l2)
+      by (unfold headers_of, pre; cbn [with_headers i_headers i_location]; rewrite <- app_assoc; reflexivity).
+    rewrite (base_args_inst0 b c _ (esc_apply (b_esc b) x)).
+    change (base_penv0 b c (with_headers i (l1 ++ (k, x) :: l2))) with (base_penv0 b c i).
+    rewrite fold_env_inst. apply fold_hdr_hole.
+  - rewrite (base_args_inst0 b c _ (esc_apply (b_esc b) x)). reflexivity.
+Qed.
+
+(* ---- the location of a redirect class (it reaches the page through the Location header) *)
+Lemma frame_location b c i :
+  exists R : res frame, forall x,
+    page_text spec_policy b c (with_location i x) =
+    rmap (fun q => fill q (plug b (esc_apply (b_esc b) x))) R.
+Proof.
+  set (E := if is_custom c i
+            then (if c_move c
+                  then fold_left (phdr_step (b_esc b)) (i_headers i)
+                         (paset (lower [76; 111; 99; 97; 116; 105; 111; 110]) [Hole]
+                            (fold_left (penv_step (b_esc b)) (i_environ i) (base_penv0 b c i)))
+                  else fold_left (phdr_step (b_esc b)) (i_headers i)
+                         (fold_left (penv_step (b_esc b)) (i_environ i) (base_penv0 b c i)))
+            else base_penv0 b c i).
+  apply (page_text_frame b c i (fun x => with_location i x) (fun x => esc_apply (b_esc b) x) E);
+    try (intros; reflexivity).
+  intros x. rewrite build_args_spec. unfold E. destruct (is_custom c i).
+  - change (i_environ (with_location i x)) with (i_environ i).
+    rewrite (base_args_inst0 b c _ (esc_apply (b_esc b) x)).
+    change (base_penv0 b c (with_location i x)) with (base_penv0 b c i).
+    rewrite fold_env_inst. unfold headers_of. cbn [with_location i_headers i_location].
+    destruct (c_move c).
+    + apply (fold_hdr_hole (b_esc b) x [] _ (i_headers i)).
+    + apply fold_hdr_inst.
+  - rewrite (base_args_inst0 b c _ (esc_apply (b_esc b) x)). reflexivity.
+Qed.
+
+(* ---- one environ value (any position, skipped or not) *)
+Lemma fold_env_hole f x l1 k l2 E :
+  fold_left (env_step f) (l1 ++ (k, x) :: l2) (inst (esc_apply f x) E) =
+  inst (esc_apply f x)
+    (fold_left (penv_step f) l2
+       (if env_skipped k then fold_left (penv_step f) l1 E
+        else paset k [Hole] (fold_left (penv_step f) l1 E))).
+Proof.
+  rewrite fold_left_app. cbn [fold_left]. rewrite fold_env_inst.
+  unfold env_step at 2. cbn [fst snd]. destruct (env_skipped k).
+  - apply fold_env_inst.
+  - rewrite aset_inst_hole. apply fold_env_inst.
+Qed.
+
+Lemma frame_environ b c i l1 k l2 :
+  exists R : res frame, forall x,
+    page_text spec_policy b c (with_environ i (l1 ++ (k, x) :: l2)) =
+    rmap (fun q => fill q (plug b (esc_apply (b_esc b) x))) R.
+Proof.
+  set (E := if is_custom c i
+            then fold_left (phdr_step (b_esc b)) (headers_of c i)
+                   (fold_left (penv_step (b_esc b)) l2
+                      (if env_skipped k then fold_left (penv_step (b_esc b)) l1 (base_penv0 b c i)
+                       else paset k [Hole] (fold_left (penv_step (b_esc b)) l1 (base_penv0 b c i))))
+            else base_penv0 b c i).
+  apply (page_text_frame b c i (fun x => with_environ i (l1 ++ (k, x) :: l2)) (fun x => esc_apply (b_esc b) x) E);
+    try (intros; reflexivity).
+  intros x. rewrite build_args_spec. unfold E. destruct (is_custom c i).
+  - change (headers_of c (with_environ i (l1 ++ (k, x) :: l2))) with (headers_of c i).
+    change (i_environ (with_environ i (l1 ++ (k, x) :: l2))) with (l1 ++ (k, x) :: l2).
+    rewrite (base_args_inst0 b c _ (esc_apply (b_esc b) x)).
+    change (base_penv0 b c (with_environ i (l1 ++ (k, x) :: l2))) with (base_penv0 b c i).
+    rewrite fold_env_hole. apply fold_hdr_inst.
+  - rewrite (base_args_inst0 b c _ (esc_apply (b_esc b) x)). reflexivity.
+Qed.
